@@ -17,6 +17,14 @@ def main():
     skip_tests = "--skip-tests" in args
     if skip_tests:
         args.remove("--skip-tests")
+    # --private: run the checks from a private copy of /verif (own coq/gen, .vo files, extracted model),
+    # so that several trials can run at the same time without sharing regenerated tables
+    private = "--private" in args
+    if private:
+        args.remove("--private")
+    seedenv = {}
+    if "--seed" in args:
+        i = args.index("--seed"); seedenv = {"VERIF_SEED": args[i+1]}; del args[i:i+2]
     patch, props = os.path.abspath(args[0]), args[1:]
     wt = tempfile.mkdtemp(prefix="seedtest-", dir="/var/tmp")
     os.rmdir(wt)
@@ -25,6 +33,12 @@ def main():
     if rc != 0:
         print(out); sys.exit(2)
     res = {"patch": patch, "checks": {}}
+    vroot = os.path.join(os.path.dirname(os.path.abspath(__file__)), "..")
+    vcopy = None
+    if private:
+        vcopy = tempfile.mkdtemp(prefix="vcopy-", dir="/var/tmp")
+        sh("rsync -a --exclude .git --exclude replay --exclude seeded --exclude .lock --exclude .coqchk-cache %s/ %s/" % (os.path.abspath(vroot), vcopy))
+        vroot = vcopy
     try:
         rc, out = sh("git apply %s || git apply -3 %s || patch -p1 -F3 < %s" % (patch, patch, patch), cwd=wt)
         if rc != 0:
@@ -41,8 +55,10 @@ def main():
                 print("REPO TESTS FAIL:", out[-2000:])
         for p in props:
             t0 = time.time()
-            rc, out = sh([os.path.join(os.path.dirname(os.path.abspath(__file__)), "..", "check"), p, "--tier", tier],
-                         env=dict(env, VERIF_REPO=wt), timeout=7200)
+            rc, out = sh([os.path.join(vroot, "check"), p, "--tier", tier],
+                         env=dict(env, VERIF_REPO=wt, **seedenv), timeout=7200)
+            if vcopy:
+                out = out.replace(vcopy, "/verif")
             last = [l for l in out.splitlines() if l.startswith(("VIOLATION", "OK ", "KNOWN-FINDING"))]
             res["checks"][p] = {"rc": rc, "lines": last, "wall_s": round(time.time() - t0, 1)}
             viol = [l for l in last if l.startswith("VIOLATION")]
@@ -50,6 +66,12 @@ def main():
     finally:
         sh(["git", "-C", "/repo", "worktree", "remove", "--force", wt])
         shutil.rmtree(wt, ignore_errors=True)
+        if vcopy:
+            # keep the replay files the private run wrote
+            real = os.path.join(os.path.dirname(os.path.abspath(__file__)), "..", "replay")
+            os.makedirs(real, exist_ok=True)
+            sh("cp -n %s/replay/* %s/ 2>/dev/null" % (vcopy, real))
+            shutil.rmtree(vcopy, ignore_errors=True)
     return res
 
 if __name__ == "__main__":
